@@ -96,9 +96,15 @@ variable (c : Cfg) (s : St)
 @[simp] theorem settle_callbacks : (settle c s).callbacks = s.callbacks := by
   simp only [settle]; split <;> split <;> rfl
 
-/-- `cancel_all_streams` happens exactly when the close is under way and nothing is pending -/
+@[simp] theorem settle_signalled : (settle c s).signalled = s.signalled := by
+  simp only [settle]; split <;> split <;> rfl
+@[simp] theorem settle_closes : (settle c s).closes = s.closes := by
+  simp only [settle]; split <;> split <;> rfl
+
+/-- the streams are told to end with nothing pending exactly when a close is under way (or an end signal was given) and
+    nothing is pending -/
 theorem settle_cancelled :
-    (settle c s).cancelled = (s.cancelled || (s.closing && s.pending.isEmpty)) := by
+    (settle c s).cancelled = (s.cancelled || ((s.closing || s.signalled) && s.pending.isEmpty)) := by
   simp only [settle]; split <;> split <;> grind
 
 /-- the stream is dropped once cancelled, nothing pending and (`for_each`) nothing in flight -/
@@ -113,7 +119,7 @@ end settle
 
 /-- the state before `settle` of an `accepted` step -/
 def acceptSt (s : St) (i : Nat) : St :=
-  { s with pending := s.pending ++ [i], beforeClose := if s.closing then s.beforeClose else s.beforeClose ++ [i] }
+  { s with pending := s.pending ++ [i], beforeClose := if s.closing || s.signalled then s.beforeClose else s.beforeClose ++ [i] }
 
 /-- what an enabled step is: the event, its guard, and the successor -/
 theorem stepEv_cases {c : Cfg} {s s' : St} {e : Ev} (h : stepEv c s e = some s') :
@@ -125,9 +131,11 @@ theorem stepEv_cases {c : Cfg} {s s' : St} {e : Ev} (h : stepEv c s e = some s')
         s' = settle c { s with pending := rest, finished := s.finished ++ [i] }) ∨
     (∃ i, e = .finished i ∧ i ∈ s.inflight ∧
         s' = settle c { s with inflight := s.inflight.erase i, finished := s.finished ++ [i] }) ∨
-    (e = .closeCalled ∧ s.closing = false ∧ s' = settle c { s with closing := true }) ∨
-    (e = .closeReturned ∧ s.closing = true ∧ s.dropped = true ∧ s.closed = false ∧ s' = { s with closed := true }) ∨
-    (e = .callback ∧ s.dropped = true ∧ s.inflight = [] ∧ s.callbacks = 0 ∧ s' = { s with callbacks := 1 }) := by
+    (e = .closeCalled ∧ s' = settle c { s with closing := true, closes := s.closes + 1 }) ∨
+    (e = .closeReturned ∧ 0 < s.closes ∧ s.closing = true ∧ s.dropped = true ∧ s' = { s with closed := true, closes := s.closes - 1 }) ∨
+    (e = .callback ∧ s.dropped = true ∧ s.inflight = [] ∧ s.callbacks = 0 ∧ s' = { s with callbacks := 1 }) ∨
+    (e = .cancelAll ∧ s' = settle c { s with signalled := true }) ∨
+    (e = .closeExpired ∧ 0 < s.closes ∧ s' = settle c { s with signalled := true, closes := s.closes - 1 }) := by
   cases e with
   | accepted i =>
     simp only [stepEv, Option.some.injEq] at h
@@ -158,27 +166,34 @@ theorem stepEv_cases {c : Cfg} {s s' : St} {e : Ev} (h : stepEv c s e = some s')
       exact Or.inr (Or.inr (Or.inr (Or.inl ⟨i, rfl, hi, h.symm⟩)))
     · cases h
   | closeCalled =>
-    simp only [stepEv] at h
-    split at h
-    · cases h
-    · rename_i hc
-      simp only [Option.some.injEq] at h
-      exact Or.inr (Or.inr (Or.inr (Or.inr (Or.inl ⟨rfl, by simpa using hc, h.symm⟩))))
+    simp only [stepEv, Option.some.injEq] at h
+    exact Or.inr (Or.inr (Or.inr (Or.inr (Or.inl ⟨rfl, h.symm⟩))))
   | closeReturned =>
     simp only [stepEv] at h
     split at h
     · rename_i hg
       simp only [Option.some.injEq] at h
-      exact Or.inr (Or.inr (Or.inr (Or.inr (Or.inr (Or.inl ⟨rfl, hg.1, hg.2.1, by simpa using hg.2.2, h.symm⟩)))))
+      exact Or.inr (Or.inr (Or.inr (Or.inr (Or.inr (Or.inl ⟨rfl, hg.1, hg.2.1, hg.2.2, h.symm⟩)))))
     · cases h
   | callback =>
     simp only [stepEv] at h
     split at h
     · rename_i hg
       simp only [Option.some.injEq] at h
-      exact Or.inr (Or.inr (Or.inr (Or.inr (Or.inr (Or.inr
-        ⟨rfl, hg.1, by simpa using hg.2.1, hg.2.2, h.symm⟩)))))
+      exact Or.inr (Or.inr (Or.inr (Or.inr (Or.inr (Or.inr (Or.inl
+        ⟨rfl, hg.1, by simpa using hg.2.1, hg.2.2, h.symm⟩))))))
     · cases h
+  | cancelAll =>
+    simp only [stepEv, Option.some.injEq] at h
+    exact Or.inr (Or.inr (Or.inr (Or.inr (Or.inr (Or.inr (Or.inr (Or.inl ⟨rfl, h.symm⟩)))))))
+  | closeExpired =>
+    simp only [stepEv] at h
+    split at h
+    · rename_i hg
+      simp only [Option.some.injEq] at h
+      exact Or.inr (Or.inr (Or.inr (Or.inr (Or.inr (Or.inr (Or.inr (Or.inr ⟨rfl, hg, h.symm⟩)))))))
+    · cases h
+
 
 theorem runEv_nil (c : Cfg) (s : St) : runEv c s [] = some s := rfl
 
@@ -216,8 +231,11 @@ theorem runEv_induct {c : Cfg} {P : St → Prop} (hstep : ∀ s e s', P s → st
 structure Inv (c : Cfg) (s : St) : Prop where
   /-- an event accepted before the close call is pending, in flight or finished -/
   sub : ∀ i ∈ s.beforeClose, i ∈ s.pending ∨ i ∈ s.inflight ∨ i ∈ s.finished
-  /-- `cancel_all_streams` only happens inside a close, and after everything accepted before the close left the channel -/
-  canc : s.cancelled = true → s.closing = true ∧ ∀ i ∈ s.beforeClose, i ∈ s.inflight ∨ i ∈ s.finished
+  /-- the streams are only told to end (with nothing pending) inside a close or after an end signal, and after everything
+      accepted before the close / the signal left the channel -/
+  canc : s.cancelled = true → (s.closing = true ∨ s.signalled = true) ∧ ∀ i ∈ s.beforeClose, i ∈ s.inflight ∨ i ∈ s.finished
+  /-- an outstanding close call means a close was called -/
+  cl : 0 < s.closes → s.closing = true
   /-- the stream is dropped only after the cancel; with `for_each` (limit ≤ 1) nothing is in flight from then on -/
   drop : s.dropped = true → s.cancelled = true ∧ (c.limit ≤ 1 → s.inflight = [])
   clos : s.closed = true → s.dropped = true ∧ s.closing = true
@@ -231,20 +249,21 @@ theorem inv_init (c : Cfg) : Inv c {} := by
   constructor <;> simp
 
 theorem inv_settle {c : Cfg} {s : St} (h : Inv c s) : Inv c (settle c s) := by
-  obtain ⟨sub, canc, drop, clos, nofut, cb, lim⟩ := h
+  obtain ⟨sub, canc, cl, drop, clos, nofut, cb, lim⟩ := h
   constructor
   · simpa using sub
   · intro hc
     rw [settle_cancelled] at hc
-    simp only [settle_closing, settle_beforeClose, settle_inflight, settle_finished]
+    simp only [settle_closing, settle_signalled, settle_beforeClose, settle_inflight, settle_finished]
     cases hcs : s.cancelled with
     | true => exact canc hcs
     | false =>
-      simp only [hcs, Bool.false_or, Bool.and_eq_true, List.isEmpty_iff] at hc
+      simp only [hcs, Bool.false_or, Bool.and_eq_true, Bool.or_eq_true, List.isEmpty_iff] at hc
       refine ⟨hc.1, fun i hi => ?_⟩
       rcases sub i hi with h1 | h1
       · rw [hc.2] at h1; cases h1
       · exact h1
+  · simpa using cl
   · intro hd
     rw [settle_dropped] at hd
     simp only [settle_inflight]
@@ -268,14 +287,14 @@ theorem inv_settle {c : Cfg} {s : St} (h : Inv c s) : Inv c (settle c s) := by
   · simpa using lim
 
 theorem inv_step {c : Cfg} {s s' : St} {e : Ev} (h : Inv c s) (hs : stepEv c s e = some s') : Inv c s' := by
-  obtain ⟨sub, canc, drop, clos, nofut, cb, lim⟩ := h
+  obtain ⟨sub, canc, cl, drop, clos, nofut, cb, lim⟩ := h
   rcases stepEv_cases hs with ⟨i, -, rfl⟩ | ⟨i, rest, -, hp, hd, hf, hl, rfl⟩ | ⟨i, rest, -, hp, hd, hf, rfl⟩ |
-      ⟨i, -, hi, rfl⟩ | ⟨-, hc, rfl⟩ | ⟨-, hc, hd, hcl, rfl⟩ | ⟨-, hd, hi, hcb, rfl⟩
+      ⟨i, -, hi, rfl⟩ | ⟨-, rfl⟩ | ⟨-, hcs, hc, hd, rfl⟩ | ⟨-, hd, hi, hcb, rfl⟩ | ⟨-, rfl⟩ | ⟨-, hcs, rfl⟩
   · -- accepted
     apply inv_settle
     constructor <;> simp only [acceptSt]
     · intro j hj
-      cases hc : s.closing with
+      cases hc : (s.closing || s.signalled) with
       | true =>
         simp only [hc, if_true] at hj
         rcases sub j hj with h1 | h1
@@ -290,7 +309,10 @@ theorem inv_step {c : Cfg} {s s' : St} {e : Ev} (h : Inv c s) (hs : stepEv c s e
         · exact Or.inl (by simp [hj])
     · intro hcn
       have := canc hcn
-      simpa [this.1] using this.2
+      have hcs : (s.closing || s.signalled) = true := by
+        rcases this.1 with h1 | h1 <;> simp [h1]
+      simpa [hcs] using this
+    · exact cl
     · exact drop
     · exact clos
     · exact nofut
@@ -312,6 +334,7 @@ theorem inv_step {c : Cfg} {s s' : St} {e : Ev} (h : Inv c s) (hs : stepEv c s e
       rcases (canc hcn).2 j hj with h1 | h1
       · exact Or.inl (List.mem_append_left _ h1)
       · exact Or.inr h1
+    · exact cl
     · intro hd'; rw [hd] at hd'; cases hd'
     · exact clos
     · intro hf'; rw [hf] at hf'; cases hf'
@@ -333,6 +356,7 @@ theorem inv_step {c : Cfg} {s s' : St} {e : Ev} (h : Inv c s) (hs : stepEv c s e
       rcases (canc hcn).2 j hj with h1 | h1
       · exact Or.inl h1
       · exact Or.inr (List.mem_append_left _ h1)
+    · exact cl
     · intro hd'; rw [hd] at hd'; cases hd'
     · exact clos
     · exact nofut
@@ -356,6 +380,7 @@ theorem inv_step {c : Cfg} {s s' : St} {e : Ev} (h : Inv c s) (hs : stepEv c s e
       rcases (canc hcn).2 j hj with h1 | h1
       · exact move j h1
       · exact Or.inr (List.mem_append_left _ h1)
+    · exact cl
     · intro hd'
       refine ⟨(drop hd').1, fun hl => ?_⟩
       rw [(drop hd').2 hl]; rfl
@@ -367,7 +392,8 @@ theorem inv_step {c : Cfg} {s s' : St} {e : Ev} (h : Inv c s) (hs : stepEv c s e
     apply inv_settle
     constructor <;> simp only []
     · exact sub
-    · intro hcn; exact ⟨trivial, (canc hcn).2⟩
+    · intro hcn; exact ⟨Or.inl trivial, (canc hcn).2⟩
+    · intro _; trivial
     · exact drop
     · intro hcl; exact ⟨(clos hcl).1, trivial⟩
     · exact nofut
@@ -377,6 +403,7 @@ theorem inv_step {c : Cfg} {s s' : St} {e : Ev} (h : Inv c s) (hs : stepEv c s e
     constructor <;> simp only []
     · exact sub
     · exact canc
+    · intro _; exact hc
     · exact drop
     · intro _; exact ⟨hd, hc⟩
     · exact nofut
@@ -386,10 +413,33 @@ theorem inv_step {c : Cfg} {s s' : St} {e : Ev} (h : Inv c s) (hs : stepEv c s e
     constructor <;> simp only []
     · exact sub
     · exact canc
+    · exact cl
     · exact drop
     · exact clos
     · exact nofut
     · exact Nat.le_refl 1
+    · exact lim
+  · -- cancelAll
+    apply inv_settle
+    constructor <;> simp only []
+    · exact sub
+    · intro hcn; exact ⟨Or.inr trivial, (canc hcn).2⟩
+    · exact cl
+    · exact drop
+    · exact clos
+    · exact nofut
+    · exact cb
+    · exact lim
+  · -- closeExpired
+    apply inv_settle
+    constructor <;> simp only []
+    · exact sub
+    · intro hcn; exact ⟨Or.inr trivial, (canc hcn).2⟩
+    · intro _; exact cl hcs
+    · exact drop
+    · exact clos
+    · exact nofut
+    · exact cb
     · exact lim
 
 /-- every state reachable from the initial one satisfies the invariant -/
@@ -446,7 +496,7 @@ theorem acceptedIds_cons (e : Ev) (es : List Ev) : acceptedIds (e :: es) = accep
 theorem perm_step {c : Cfg} {s s' : St} {e : Ev} (hs : stepEv c s e = some s') :
     (held s').Perm (held s ++ acceptedIds [e]) := by
   rcases stepEv_cases hs with ⟨i, rfl, rfl⟩ | ⟨i, rest, rfl, hp, hd, hf, hl, rfl⟩ | ⟨i, rest, rfl, hp, hd, hf, rfl⟩ |
-      ⟨i, rfl, hi, rfl⟩ | ⟨rfl, hc, rfl⟩ | ⟨rfl, hc, hd, hcl, rfl⟩ | ⟨rfl, hd, hi, hcb, rfl⟩
+      ⟨i, rfl, hi, rfl⟩ | ⟨rfl, rfl⟩ | ⟨rfl, hcs, hc, hd, rfl⟩ | ⟨rfl, hd, hi, hcb, rfl⟩ | ⟨rfl, rfl⟩ | ⟨rfl, hcs, rfl⟩
   · rw [held_settle, List.perm_iff_count]; intro a
     simp only [held, acceptSt, acceptedIds, List.count_append]; omega
   · rw [held_settle, List.perm_iff_count]; intro a
@@ -461,6 +511,8 @@ theorem perm_step {c : Cfg} {s s' : St} {e : Ev} (hs : stepEv c s e = some s') :
     by_cases hia : (i == a) = true
     · have := hpos hia; simp only [hia, if_true]; omega
     · simp only [hia]; simp
+  · simp [held, acceptedIds]
+  · simp [held, acceptedIds]
   · simp [held, acceptedIds]
   · simp [held, acceptedIds]
   · simp [held, acceptedIds]
@@ -479,10 +531,12 @@ theorem perm_run {c : Cfg} {es : List Ev} : ∀ {s s' : St}, runEv c s es = some
 
 /-! ### the ghost fields, as functions of the log -/
 
-/-- ids accepted before the first `closeCalled` of the log -/
+/-- ids accepted before the first `closeCalled` / end signal of the log -/
 def acceptedBeforeClose : List Ev → List Nat
   | [] => []
   | .closeCalled :: _ => []
+  | .cancelAll :: _ => []
+  | .closeExpired :: _ => []
   | .accepted i :: es => i :: acceptedBeforeClose es
   | _ :: es => acceptedBeforeClose es
 
@@ -493,26 +547,33 @@ def processedIds (c : Cfg) : List Ev → List Nat
   | .yielded i :: es => if c.futures then processedIds c es else i :: processedIds c es
   | _ :: es => processedIds c es
 
+/-- the events that give the end signal -/
+def isSignal : Ev → Bool
+  | .closeCalled | .cancelAll | .closeExpired => true
+  | _ => false
+
 theorem ghost_step {c : Cfg} {s s' : St} {e : Ev} (hs : stepEv c s e = some s') :
     s'.finished = s.finished ++ processedIds c [e] ∧
-    s'.beforeClose = s.beforeClose ++ (if s.closing then [] else acceptedBeforeClose [e]) ∧
-    s'.closing = (s.closing || e == .closeCalled) ∧
+    s'.beforeClose = s.beforeClose ++ (if s.closing || s.signalled then [] else acceptedBeforeClose [e]) ∧
+    (s'.closing || s'.signalled) = (s.closing || s.signalled || isSignal e) ∧
     s'.callbacks = s.callbacks + [e].count .callback := by
   rcases stepEv_cases hs with ⟨i, rfl, rfl⟩ | ⟨i, rest, rfl, hp, hd, hf, hl, rfl⟩ | ⟨i, rest, rfl, hp, hd, hf, rfl⟩ |
-      ⟨i, rfl, hi, rfl⟩ | ⟨rfl, hc, rfl⟩ | ⟨rfl, hc, hd, hcl, rfl⟩ | ⟨rfl, hd, hi, hcb, rfl⟩
-  · cases hc : s.closing <;> simp [acceptSt, processedIds, acceptedBeforeClose, hc]
-  · simp [processedIds, acceptedBeforeClose, hf]
-  · simp [processedIds, acceptedBeforeClose, hf]
-  · simp [processedIds, acceptedBeforeClose]
-  · simp [processedIds, acceptedBeforeClose, hc]
-  · simp [processedIds, hc]
-  · simp [processedIds, acceptedBeforeClose, hcb]
+      ⟨i, rfl, hi, rfl⟩ | ⟨rfl, rfl⟩ | ⟨rfl, hcs, hc, hd, rfl⟩ | ⟨rfl, hd, hi, hcb, rfl⟩ | ⟨rfl, rfl⟩ | ⟨rfl, hcs, rfl⟩
+  · cases hc : (s.closing || s.signalled) <;> simp [acceptSt, processedIds, acceptedBeforeClose, isSignal, hc]
+  · simp [processedIds, acceptedBeforeClose, isSignal, hf]
+  · simp [processedIds, acceptedBeforeClose, isSignal, hf]
+  · simp [processedIds, acceptedBeforeClose, isSignal]
+  · simp [processedIds, acceptedBeforeClose, isSignal]
+  · simp [processedIds, acceptedBeforeClose, isSignal, hc]
+  · simp [processedIds, acceptedBeforeClose, isSignal, hcb]
+  · simp [processedIds, acceptedBeforeClose, isSignal]
+  · simp [processedIds, acceptedBeforeClose, isSignal]
 
-/-- `finished`, `beforeClose`, `closing`, `callbacks` are what their names say, in terms of the log alone -/
+/-- `finished`, `beforeClose`, "the end signal was given", `callbacks` are what their names say, in terms of the log alone -/
 theorem ghost_run {c : Cfg} {es : List Ev} : ∀ {s s' : St}, runEv c s es = some s' →
     s'.finished = s.finished ++ processedIds c es ∧
-    s'.beforeClose = s.beforeClose ++ (if s.closing then [] else acceptedBeforeClose es) ∧
-    s'.closing = (s.closing || es.contains .closeCalled) ∧
+    s'.beforeClose = s.beforeClose ++ (if s.closing || s.signalled then [] else acceptedBeforeClose es) ∧
+    (s'.closing || s'.signalled) = (s.closing || s.signalled || es.any isSignal) ∧
     s'.callbacks = s.callbacks + es.count .callback := by
   induction es with
   | nil => intro s s' h; cases h; simp [processedIds, acceptedBeforeClose]
@@ -522,8 +583,8 @@ theorem ghost_run {c : Cfg} {es : List Ev} : ∀ {s s' : St}, runEv c s es = som
     obtain ⟨a1, a2, a3, a4⟩ := ghost_step h1
     obtain ⟨b1, b2, b3, b4⟩ := ih h2
     rw [b1, b2, b3, b4, a1, a2, a3, a4]
-    cases hc : s.closing <;> cases e <;>
-      simp [processedIds, acceptedBeforeClose] <;> (first | omega | (split <;> simp))
+    cases hc : (s.closing || s.signalled) <;> cases e <;>
+      simp [processedIds, acceptedBeforeClose, isSignal] <;> (first | omega | (split <;> simp) | skip)
 
 /-! ### after the close callback (C12) -/
 
@@ -537,7 +598,7 @@ theorem settle_dropped_of {c : Cfg} {s : St} (h : s.dropped = true) : (settle c 
 theorem done_of_callback {c : Cfg} {s s' : St} (hs : stepEv c s .callback = some s') :
     s.dropped = true ∧ s.inflight = [] ∧ s.callbacks = 0 ∧ Done s' := by
   rcases stepEv_cases hs with ⟨i, h, -⟩ | ⟨i, rest, h, -⟩ | ⟨i, rest, h, -⟩ | ⟨i, h, -⟩ | ⟨h, -⟩ | ⟨h, -⟩ |
-      ⟨-, hd, hi, hcb, rfl⟩
+      ⟨-, hd, hi, hcb, rfl⟩ | ⟨h, -⟩ | ⟨h, -⟩
   all_goals first | cases h | skip
   exact ⟨hd, hi, hcb, hd, hi, rfl⟩
 
@@ -546,7 +607,7 @@ theorem done_step {c : Cfg} {s s' : St} {e : Ev} (hd : Done s) (hs : stepEv c s 
     Done s' ∧ (∀ i, e ≠ .yielded i) ∧ (∀ i, e ≠ .finished i) ∧ e ≠ .callback := by
   obtain ⟨h1, h2, h3⟩ := hd
   rcases stepEv_cases hs with ⟨i, rfl, rfl⟩ | ⟨i, rest, rfl, hp, hd, hf, hl, rfl⟩ | ⟨i, rest, rfl, hp, hd, hf, rfl⟩ |
-      ⟨i, rfl, hi, rfl⟩ | ⟨rfl, hc, rfl⟩ | ⟨rfl, hc, hd, hcl, rfl⟩ | ⟨rfl, hd, hi, hcb, rfl⟩
+      ⟨i, rfl, hi, rfl⟩ | ⟨rfl, rfl⟩ | ⟨rfl, hcs, hc, hd, rfl⟩ | ⟨rfl, hd, hi, hcb, rfl⟩ | ⟨rfl, rfl⟩ | ⟨rfl, hcs, rfl⟩
   · exact ⟨⟨settle_dropped_of (by simpa [acceptSt] using h1), by simpa [acceptSt] using h2,
       by simpa [acceptSt] using h3⟩, by simp⟩
   · rw [h1] at hd; cases hd
@@ -555,6 +616,8 @@ theorem done_step {c : Cfg} {s s' : St} {e : Ev} (hd : Done s) (hs : stepEv c s 
   · exact ⟨⟨settle_dropped_of h1, by simpa using h2, by simpa using h3⟩, by simp⟩
   · exact ⟨⟨h1, h2, h3⟩, by simp⟩
   · rw [h3] at hcb; cases hcb
+  · exact ⟨⟨settle_dropped_of h1, by simpa using h2, by simpa using h3⟩, by simp⟩
+  · exact ⟨⟨settle_dropped_of h1, by simpa using h2, by simpa using h3⟩, by simp⟩
 
 theorem done_run {c : Cfg} {es : List Ev} : ∀ {s s' : St}, Done s → runEv c s es = some s' →
     Done s' ∧ ∀ e ∈ es, (∀ i, e ≠ .yielded i) ∧ (∀ i, e ≠ .finished i) ∧ e ≠ .callback := by
